@@ -512,7 +512,16 @@ fn logic_operand_to_string(exp: &Exp) -> String {
 impl fmt::Display for Exp {
     fn fmt(&self, f: &mut fmt::Formatter<'_>) -> fmt::Result {
         let s = match self {
-            Exp::Number(value) => value.to_string(),
+            Exp::Number(value) => {
+                //the parser only knows the infinities by the name of their constant
+                if *value == f64::INFINITY {
+                    "Infinity".to_string()
+                } else if *value == f64::NEG_INFINITY {
+                    "MinusInfinity".to_string()
+                } else {
+                    value.to_string()
+                }
+            }
             Exp::Variable(name) => name.clone(),
             Exp::Abs(exp) => format!("abs{{ {} }}", exp),
             Exp::And(exps) => exps
